@@ -22,9 +22,10 @@ const (
 	clsOverSmall        // process-overloaded by targets that can be relieved (90 + 30)
 	clsIdleExpiredStale // idle for long, but its Prometheus still reports 65 stale head series
 	clsHeadOver         // two movable targets of 30: process 60, head 60 (over 1.1 x a head limit of 50)
+	clsVanished         // holds one target of 30 that is no longer discovered (it is taken away in this cycle)
 )
 
-var clsNames = []string{"loaded", "idle-recent", "idle-expired", "not-ready", "out-of-sync", "get-fail", "runtime-fail", "loaded-small", "overloaded-stuck", "overloaded-relievable", "idle-expired-stale-head", "head-overloaded"}
+var clsNames = []string{"loaded", "idle-recent", "idle-expired", "not-ready", "out-of-sync", "get-fail", "runtime-fail", "loaded-small", "overloaded-stuck", "overloaded-relievable", "idle-expired-stale-head", "head-overloaded", "holds-vanished-target"}
 
 func c07Shard(cls int, idx int, maxHead int64) (h1.Shard, []h1.Tgt) {
 	s := h1.Shard{Ready: true}
@@ -56,6 +57,9 @@ func c07Shard(cls int, idx int, maxHead int64) (h1.Shard, []h1.Tgt) {
 		s.Head, s.Proc = 60, 60
 		ts = append(ts, h1.Tgt{Hash: h, Job: "j", Discovered: true, Explore: &h1.St{Health: "up", Series: 30, Total: 30}},
 			h1.Tgt{Hash: h + 50, Job: "j", Discovered: true, Explore: &h1.St{Health: "up", Series: 30, Total: 30}})
+	case clsVanished:
+		load(30)
+		ts[0].Discovered = false
 	case clsIdleRecent:
 		s.IdleAgoSec = i64p(10)
 	case clsIdleExpired:
